@@ -96,3 +96,182 @@ Theorem C08_edges_some :
          bfs G cfg starts = Ok o -> exists es : list (BinNums.Z * BinNums.Z), edges o = Some es.
 Proof. exact @bfs_edges_some. Qed.
 Print Assumptions C08_edges_some.
+
+From V Require Import Base Perm Tensor Graph GraphProofs GraphImpl Bfs BfsStep BfsProofs BfsEdges Export ExportProofs ExportSchreier.
+
+(* the vertex numbering exists exactly when the per-layer hash lists have the recorded sizes and no hash repeats (the Hash collision assertion), and then it numbers the concatenated hashes 0,1,2,... *)
+Theorem C08_hashes_to_indices_iff :
+  forall (lh : list (list BinNums.Z)) (ls : list nat) (m : list (BinNums.Z * nat)),
+         hashes_to_indices lh ls = Ok m <->
+         sizes_agree lh ls /\ List.NoDup (List.concat lh) /\ m = index_dict (List.concat lh).
+Proof. exact @hashes_to_indices_iff. Qed.
+Print Assumptions C08_hashes_to_indices_iff.
+
+(* the renumbered edge list is the hash edge list looked up pointwise (KeyError exactly when an endpoint is unknown) *)
+Theorem C08_edges_list_iff :
+  forall (m : list (BinNums.Z * nat)) (eh : list (BinNums.Z * BinNums.Z))
+           (el : list (nat * nat)), edges_list m eh = Ok el <-> List.Forall2 (edge_maps m) eh el.
+Proof. exact @edges_list_iff. Qed.
+Print Assumptions C08_edges_list_iff.
+
+(* under an injective hash: index pair (i,j) is listed exactly when some generator maps state i to state j *)
+Theorem C08_numbering_consistent :
+  forall (A : Type) (hash : A -> BinNums.Z) (d : A) (states : list A)
+           (lh : list (list BinNums.Z)) (ls : list nat),
+         List.NoDup states ->
+         (forall a b : A, List.In a states -> List.In b states -> hash a = hash b -> a = b) ->
+         sizes_agree lh ls ->
+         List.concat lh = List.map hash states ->
+         forall gens : list (A -> A),
+         (forall (v : A) (g : A -> A), List.In v states -> List.In g gens -> List.In (g v) states) ->
+         forall eh : list (BinNums.Z * BinNums.Z),
+         (forall a b : BinNums.Z,
+          List.In (a, b) eh <->
+          (exists (v : A) (g : A -> A),
+             List.In v states /\ List.In g gens /\ a = hash v /\ b = hash (g v))) ->
+         exists el : list (nat * nat),
+           hashes_to_indices lh ls = Ok (numbering A hash states) /\
+           edges_list (numbering A hash states) eh = Ok el /\
+           length el = length eh /\
+           (forall i j : nat,
+            List.In (i, j) el <->
+            i < length states /\
+            j < length states /\
+            (exists g : A -> A, List.In g gens /\ g (List.nth i states d) = List.nth j states d)).
+Proof. exact @numbering_consistent. Qed.
+Print Assumptions C08_numbering_consistent.
+
+(* get_edge_name returns the name of the FIRST generator mapping state i to state j *)
+Theorem C08_edge_name_spec :
+  forall (perms : list (list nat)) (names : list String.string) (s1 s2 : list BinNums.Z)
+           (nm : String.string),
+         edge_name perms names s1 s2 = Ok nm <->
+         (exists k : nat,
+            k < length perms /\
+            k < length names /\
+            List.nth k names String.EmptyString = nm /\
+            gen_maps perms k s1 s2 /\ (forall k' : nat, k' < k -> ~ gen_maps perms k' s1 s2)).
+Proof. exact @edge_name_spec. Qed.
+Print Assumptions C08_edge_name_spec.
+
+(* and asserts exactly when no generator does *)
+Theorem C08_edge_name_err_iff :
+  forall (perms : list (list nat)) (names : list String.string) (s1 s2 : list BinNums.Z),
+         length names = length perms ->
+         edge_name perms names s1 s2 = Err AssertionErr <->
+         (forall k : nat, k < length perms -> ~ gen_maps perms k s1 s2).
+Proof. exact @edge_name_err_iff. Qed.
+Print Assumptions C08_edge_name_err_iff.
+
+(* vertex names of equal-length states with non-negative entries are distinct for distinct states (both separator modes, and across them) *)
+Theorem C08_vertex_name_injective :
+  forall s1 s2 : list BinNums.Z,
+         length s1 = length s2 ->
+         (forall x : BinNums.Z, List.In x s1 -> BinInt.Z.le BinNums.Z0 x) ->
+         (forall x : BinNums.Z, List.In x s2 -> BinInt.Z.le BinNums.Z0 x) ->
+         vertex_name s1 = vertex_name s2 -> s1 = s2.
+Proof. exact @vertex_name_injective. Qed.
+Print Assumptions C08_vertex_name_injective.
+
+(* COMPOSITION with the BFS model: on a completed run with edges and hashes the exported numbering and edge list describe exactly the Schreier graph on the orbit *)
+Theorem C08_export_is_schreier_graph :
+  forall (G : impl) (cfg : bfs_cfg) (U : state -> Prop),
+         closed state (acts G) U ->
+         (forall a b : state, U a -> U b -> hashf G a = hashf G b -> a = b) ->
+         (is_identity G = true -> forall a : state, U a -> unword G (hashf G a) = a) ->
+         (inv_closed G = true -> symmetric_on state (acts G) U) ->
+         BinInt.Z.le (BinNums.Zpos BinNums.xH) (batch_size cfg) ->
+         forall starts : list state,
+         (forall s : state, List.In s starts -> U s) ->
+         starts <> nil ->
+         ret_edges cfg = true ->
+         ret_hashes cfg = true ->
+         forall (o : bfs_out) (es : list (BinNums.Z * BinNums.Z)),
+         bfs G cfg starts = Ok o ->
+         completed o = true ->
+         edges o = Some es ->
+         length (layers o) = length (sizes o) ->
+         exists (m : list (BinNums.Z * nat)) (el : list (nat * nat)),
+           hashes_to_indices (layer_hashes o) (sizes o) = Ok m /\
+           edges_list m es = Ok el /\
+           length el = length es /\
+           List.NoDup (all_states o) /\
+           (forall t : state,
+            List.In t (all_states o) <-> (exists k : nat, reach state (acts G) starts k t)) /\
+           length (all_states o) = List.fold_right PeanoNat.Nat.add 0 (sizes o) /\
+           (forall k : nat,
+            k < length (all_states o) ->
+            assoc_get (hashf G (List.nth k (all_states o) nil)) m = Some k) /\
+           (forall (h : BinNums.Z) (k : nat),
+            assoc_get h m = Some k ->
+            k < length (all_states o) /\ h = hashf G (List.nth k (all_states o) nil)) /\
+           (forall i j : nat,
+            List.In (i, j) el <->
+            i < length (all_states o) /\
+            j < length (all_states o) /\
+            (exists g : state -> state,
+               List.In g (acts G) /\
+               g (List.nth i (all_states o) nil) = List.nth j (all_states o) nil)).
+Proof. exact @export_is_schreier_graph. Qed.
+Print Assumptions C08_export_is_schreier_graph.
+
+(* every exported edge gets the name of a generator that realises it *)
+Theorem C08_export_edge_names :
+  forall (G : impl) (cfg : bfs_cfg) (U : state -> Prop),
+         closed state (acts G) U ->
+         (forall a b : state, U a -> U b -> hashf G a = hashf G b -> a = b) ->
+         (is_identity G = true -> forall a : state, U a -> unword G (hashf G a) = a) ->
+         (inv_closed G = true -> symmetric_on state (acts G) U) ->
+         BinInt.Z.le (BinNums.Zpos BinNums.xH) (batch_size cfg) ->
+         forall starts : list state,
+         (forall s : state, List.In s starts -> U s) ->
+         starts <> nil ->
+         ret_edges cfg = true ->
+         ret_hashes cfg = true ->
+         forall (o : bfs_out) (es : list (BinNums.Z * BinNums.Z)),
+         bfs G cfg starts = Ok o ->
+         completed o = true ->
+         edges o = Some es ->
+         length (layers o) = length (sizes o) ->
+         forall (perms : list (list nat)) (names : list String.string),
+         acts G = List.map (fun p : list nat => apply_perm BinNums.Z0 p) perms ->
+         length names = length perms ->
+         forall (m : list (BinNums.Z * nat)) (el : list (nat * nat)),
+         hashes_to_indices (layer_hashes o) (sizes o) = Ok m ->
+         edges_list m es = Ok el ->
+         forall i j : nat,
+         List.In (i, j) el ->
+         exists (nm : String.string) (k : nat),
+           edge_name perms names (List.nth i (all_states o) nil) (List.nth j (all_states o) nil) =
+           Ok nm /\
+           k < length perms /\
+           List.nth k names String.EmptyString = nm /\
+           apply_perm BinNums.Z0 (List.nth k perms nil) (List.nth i (all_states o) nil) =
+           List.nth j (all_states o) nil /\
+           (forall k' : nat,
+            k' < k ->
+            apply_perm BinNums.Z0 (List.nth k' perms nil) (List.nth i (all_states o) nil) <>
+            List.nth j (all_states o) nil).
+Proof. exact @export_edge_names. Qed.
+Print Assumptions C08_export_edge_names.
+
+(* exported vertex names are pairwise distinct *)
+Theorem C08_export_vertex_names_distinct :
+  forall (G : impl) (cfg : bfs_cfg) (U : state -> Prop),
+         closed state (acts G) U ->
+         (forall a b : state, U a -> U b -> hashf G a = hashf G b -> a = b) ->
+         (is_identity G = true -> forall a : state, U a -> unword G (hashf G a) = a) ->
+         (inv_closed G = true -> symmetric_on state (acts G) U) ->
+         BinInt.Z.le (BinNums.Zpos BinNums.xH) (batch_size cfg) ->
+         forall starts : list state,
+         (forall s : state, List.In s starts -> U s) ->
+         starts <> nil ->
+         forall o : bfs_out,
+         bfs G cfg starts = Ok o ->
+         length (layers o) = length (sizes o) ->
+         forall w : nat,
+         (forall s : state,
+          U s -> length s = w /\ (forall x : BinNums.Z, List.In x s -> BinInt.Z.le BinNums.Z0 x)) ->
+         List.NoDup (List.map vertex_name (all_states o)).
+Proof. exact @export_vertex_names_distinct. Qed.
+Print Assumptions C08_export_vertex_names_distinct.
